@@ -29,7 +29,7 @@ func TestProp(t *testing.T) {
 		r.Inconclusive("reference self-test failed: " + err.Error())
 		return
 	}
-	r.SetRule("enumerated: etype {16,17,18,19,20,23} x plaintext length 0..130 (thorough: 0..300 and the neighbours of 512, 1024, 4096, 16384, 65536) x usage set (29 iana constants + 127,128,255,256,1024,2^31) x K seeded keys (2 quick / 32 thorough; the last one shared byte-for-byte by all etypes of equal key length) x seeded contents, " +
+	r.SetRule("enumerated: etype {16,17,18,19,20,23} x plaintext length 0..130 (thorough: 0..300 and the neighbours of 512, 1024, 4096, 16384, 65536) x usage set (29 iana constants + 127,128,255,256,1024,2^31) x K seeded keys (2 quick / 12 thorough; the last one shared byte-for-byte by all etypes of equal key length) x seeded contents, " +
 		"plus a key usage sweep (every usage number 1..4095, thorough: 1..65535 and 100 000 seeded 32-bit numbers, per etype with a fixed key and a 21-byte plaintext); " +
 		"plus fault injection at the random source (a rand.Reader that fails after 0/1/7/15 bytes, in a test binary built with the repository's go <= 1.23 toolchain: error or still-different ciphertexts); " +
 		"each in both directions (gokrb5 encrypt -> reference decrypt, reference encrypt -> gokrb5 decrypt) through crypto.GetEncryptedData/DecryptMessage and the EType interface; " +
@@ -41,7 +41,7 @@ func TestProp(t *testing.T) {
 		lens = append(lens, n)
 	}
 	if vh.Thorough() {
-		nkeys = 32
+		nkeys = 12
 		for n := 131; n <= 300; n++ {
 			lens = append(lens, n)
 		}
